@@ -795,6 +795,14 @@ func buildJSONReader(p *Program, o *JSONObject) {
 							row.NullTest = true
 						}
 					}
+				case *ast.IfStmt:
+					// a condition that mentions "null" must be exactly `string(raw) == "null"` or its
+					// negation, whatever its spelling (len(raw) == 4 may be and-ed / or-ed in)
+					if mentionsNullConst(c, x.Cond) {
+						if why := nullCondExact(c, x.Cond); why != "" {
+							row.Problems = append(row.Problems, "key "+key+": "+why)
+						}
+					}
 				}
 				return true
 			})
@@ -1291,4 +1299,72 @@ func isFuncVar(o types.Object) bool {
 	}
 	_, isSig := v.Type().Underlying().(*types.Signature)
 	return isSig
+}
+
+func mentionsNullConst(c *rmCtx, e ast.Expr) bool {
+	found := false
+	ast.Inspect(e, func(n ast.Node) bool {
+		if be, ok := n.(*ast.BinaryExpr); ok && (be.Op == token.EQL || be.Op == token.NEQ) {
+			if v, ok := c.constStr(be.Y); ok && v == "null" {
+				found = true
+			}
+		}
+		return true
+	})
+	return found
+}
+
+// nullCondExact evaluates a null test over its two possible atoms — L: len(X) == 4 and N: string(X) == "null"
+// (N implies L) — and demands that it is equivalent to N or to !N on the three feasible valuations.
+func nullCondExact(c *rmCtx, e ast.Expr) string {
+	unknown := false
+	var eval func(e ast.Expr, L, N bool) bool
+	eval = func(e ast.Expr, L, N bool) bool {
+		switch x := ast.Unparen(e).(type) {
+		case *ast.UnaryExpr:
+			if x.Op == token.NOT {
+				return !eval(x.X, L, N)
+			}
+		case *ast.BinaryExpr:
+			switch x.Op {
+			case token.LAND:
+				return eval(x.X, L, N) && eval(x.Y, L, N)
+			case token.LOR:
+				return eval(x.X, L, N) || eval(x.Y, L, N)
+			case token.EQL, token.NEQ:
+				if v, ok := c.constStr(x.Y); ok && v == "null" {
+					if cv, isConv := ast.Unparen(x.X).(*ast.CallExpr); isConv && len(cv.Args) == 1 {
+						return N == (x.Op == token.EQL)
+					}
+				}
+				if k, ok := c.constInt(x.Y); ok && k == 4 {
+					if call, isCall := ast.Unparen(x.X).(*ast.CallExpr); isCall && len(call.Args) == 1 {
+						if id, ok := call.Fun.(*ast.Ident); ok && id.Name == "len" {
+							return L == (x.Op == token.EQL)
+						}
+					}
+				}
+			}
+		}
+		unknown = true
+		return false
+	}
+	vals := [][2]bool{{false, false}, {true, false}, {true, true}} // (L, N)
+	isN, isNotN := true, true
+	for _, v := range vals {
+		r := eval(e, v[0], v[1])
+		if r != v[1] {
+			isN = false
+		}
+		if r != !v[1] {
+			isNotN = false
+		}
+	}
+	if unknown {
+		return "the null test contains a term other than len(raw) == 4 / string(raw) == \"null\""
+	}
+	if !isN && !isNotN {
+		return "the null test is not equivalent to string(raw) == \"null\": some non-null value (e.g. any four-byte value such as true or 1000) is taken for null, or null is decoded as a value"
+	}
+	return ""
 }
